@@ -108,12 +108,12 @@ Section Term.
                         | apply lin with (dd := 0%nat); [lia|unfold G; lia] ] ] end).
     (* what is left is the gzip restart *)
     match goal with
-    | Ei : inflate ?p = Some ?raw, Er : rec JReg ([], ?raw) = DFuel,
+    | Ei : inflate ?p = Some ?raw, Er : rec JReg (?hh, ?raw) = DFuel,
       Hs : ?b = ?p1 ++ ?p ++ ?rest, Hsuf : suffix ?b bs |- _ =>
         assert (Hb : gz_depth_le d b) by (eapply gz_suffix; [exact Hsuf|exact Hgz]);
         destruct d as [|d']; cbn [gz_depth_le] in Hb; specialize (Hb p1 p rest raw Hs Ei); [exact Hb|];
         destruct Hb as [HB Hd'];
-        apply (Hcall d' JReg ([], raw) Er); [exact Hd'|]; cbn [snd off] in *;
+        apply (Hcall d' JReg (hh, raw) Er); [exact Hd'|]; cbn [snd off] in *;
         assert (G U * (length raw / 4) <= G U * (B / 4))%nat
           by (apply Nat.mul_le_mono_l, Nat.div_le_mono; [discriminate|exact HB]);
         unfold K in *; lia
